@@ -129,6 +129,32 @@ func settle(base int) int {
 var lastDrift bool
 var driftStreak int
 
+// splitAtMessageBoundary returns an offset at which the real framer, run sequentially, has just finished a message
+// and the rest starts a new one (so that framing the two halves separately gives the same messages as framing the whole).
+func splitAtMessageBoundary(in []byte) int {
+	chIn := make(chan byte, len(in)+1)
+	for _, b := range in {
+		chIn <- b
+	}
+	close(chIn)
+	chOut := make(chan handler.Message, 16)
+	h := handler.New(c09Start, slog.LevelDebug)
+	go h.HandleMessages(chIn, chOut)
+	var ends []int
+	off := 0
+	for m := range chOut {
+		off += len(m.RawData)
+		ends = append(ends, off)
+	}
+	for i := len(ends) / 2; i < len(ends)-1; i++ {
+		// a boundary is safe when the next message starts with the start byte or the previous one was a typed frame
+		if ends[i] < len(in) && in[ends[i]] == 0xd3 {
+			return ends[i]
+		}
+	}
+	return len(in)
+}
+
 func runPipeline(w *tr.Writer, in []byte, caps []int, mode string, hist [][]interface{}, rng *rand.Rand, procs int) {
 	ref := sequentialRef(in, c09Start)
 	ncons := 0
@@ -204,6 +230,13 @@ func runPipeline(w *tr.Writer, in []byte, caps []int, mode string, hist [][]inte
 	go func() {
 		ret <- tr.Recover(func() {
 			ac := appcore.New(&jsonconfig.Config{}, chans)
+			if mode == "twice" {
+				// the same AppCore handles two inputs in a row, as AppCore.HandleMessages does when the device reconnects
+				half := splitAtMessageBoundary(in)
+				ac.HandleMessagesUntilEOF(c09Start, bufio.NewReader(bytes.NewReader(in[:half])))
+				ac.HandleMessagesUntilEOF(c09Start, bufio.NewReader(bytes.NewReader(in[half:])))
+				return
+			}
 			ac.HandleMessagesUntilEOF(c09Start, bufio.NewReader(reader))
 		})
 	}()
@@ -359,6 +392,11 @@ func c09(args []string) {
 			runPipeline(w, in, capsets[i%len(capsets)], "lag", nil, rng, p)
 			runtime.GOMAXPROCS(old)
 		}
+		for i := 0; i < 4+nfree/20; i++ {
+			in := wellStructuredFrames(rng, 6+rng.Intn(10))
+			capsets := [][]int{{-1, 0, 1}, {0, -1, -1, 2}, {-1, -1, 0}, {1, 0}}
+			runPipeline(w, in, capsets[i%len(capsets)], "twice", nil, rng, runtime.GOMAXPROCS(0))
+		}
 		for i := 0; i < nfree; i++ {
 			var in []byte
 			switch i % 4 {
@@ -378,4 +416,12 @@ func c09(args []string) {
 			runtime.GOMAXPROCS(old)
 		}
 	}
+}
+
+func wellStructuredFrames(rng *rand.Rand, n int) []byte {
+	var in []byte
+	for k := 0; k < n; k++ {
+		in = append(in, gen.Frame(rng, gen.TypeClass(rng, k), 1+rng.Intn(40), 0)...)
+	}
+	return in
 }
